@@ -14,7 +14,10 @@ CLAIMS = {
              "fragment extracted symbolically from the satisfier equals the specification's canonical template in both "
              "modes; multi/multi_a/sorted templates; has_sig bookkeeping; selection keeps (stack, locks) from one source; "
              "output-type assembly per descriptor type agrees with the standard and between direct/plan/PSBT paths; every "
-             "satisfaction the choosers return reports locks of the candidate whose stack it carries.",
+             "satisfaction the choosers return reports locks of the candidate whose stack it carries. End to end on a bounded "
+             "family (~60 scripts x every subset of their keys x preimage sets x locks met or not, both modes): the "
+             "satisfier, evaluated from its typed syntax tree, returns only witnesses that use owned assets and make the "
+             "specification's script succeed in a reference execution under the reported locks.",
         note="Trusted: spec/satisfaction.py, spec/outputs.py; rustc THIR; evaluator semantics (fails closed). Signature "
              "validity, script execution and witness optimisation are not decided.",
         tech=STATIC + "symbolic per-variant template extraction from THIR compared with specification tables",
@@ -24,7 +27,9 @@ CLAIMS = {
         text="Decides structural necessary conditions of completeness: no specification template missing; the typing "
              "table's `d` agrees with the satisfier's dissatisfaction templates (cross-table); minimum/minimum_mall/combine "
              "exact tables; asset-lookup forwarding completeness over all Satisfier impls; malleable entry points reach "
-             "malleable internals (call-site rule with reasoned exceptions).",
+             "malleable internals (call-site rule with reasoned exceptions). End to end on a bounded family (as C01): whenever a "
+             "canonical satisfaction exists with the owned assets, the malleable satisfier returns one, and so does the "
+             "non-malleable one for scripts typed non-malleable.",
         note="Trusted: spec/satisfaction.py; rustc THIR. The witness search itself is not decided.",
         tech=STATIC + "cross-table contradiction rule, finite decision tables from THIR, who-calls-whom mode rule",
         engine="symx+tablex"),
@@ -32,7 +37,9 @@ CLAIMS = {
         cat="other",
         text="Decides that the selection logic used in non-malleable mode is the specification's non-malleable algorithm: "
              "exact table of `minimum`, time-lock availability rule and provenance of root_has_sig, selector binding per "
-             "mode for every fragment, threshold selection on n=3 as properties of the result.",
+             "mode for every fragment, threshold selection on n=3 as properties of the result. End to end on a bounded family "
+             "(as C01): no single or double third-party edit of a witness returned in non-malleable mode is accepted by "
+             "the reference execution under MINIMALIF + NULLFAIL.",
         note="Trusted: specification's non-malleable algorithm is sufficient; malleability typing decided by C05.",
         tech=STATIC + "finite decision tables from THIR + symbolic selector binding",
         engine="tablex"),
